@@ -550,4 +550,80 @@ def DecimalInt64 (s : Str) (i : Int) : Prop :=
     i = (if sign = [45] then -(decVal ds : Int) else (decVal ds : Int)) ∧
     -(2 ^ 63 : Int) ≤ i ∧ i < 2 ^ 63
 
+/-! ## The effective latency offsets (dialer_group.go `buildSelectionState` → `NewAliveDialerSet`)
+
+`NewDialerGroup` hands `Dialers` and `dialersAnnotations` to one `AliveDialerSet` per standard
+network type — unless the policy is `fixed`, which keeps no alive state. Each set copies the
+annotations into its own Go map `dialerToLatencyOffset` (`m[dialers[i]] = annotations[i].AddLatency`,
+in member order); that map, not the annotation slice, is what the latency policies add to a
+measured latency. A Go map is modelled as an association list with at most one entry per key. -/
+
+/-- `m[k] = v` -/
+def mapSet (m : List (Nat × Int)) (k : Nat) (v : Int) : List (Nat × Int) :=
+  (k, v) :: m.filter (fun e => e.1 != k)
+
+/-- `m[k]` (`none` = absent) -/
+def mapGet (m : List (Nat × Int)) (k : Nat) : Option Int := (m.find? (fun e => e.1 == k)).map (·.2)
+
+/-- the loop `for i := range dialers { dialerToLatencyOffset[dialers[i]] = dialersAnnotations[i].AddLatency }`
+of `NewAliveDialerSet`; a member is identified by its pool index (one `*Dialer` per pool entry). -/
+def offsetTable (members : List (Nat × Int)) : List (Nat × Int) :=
+  members.foldl (fun m e => mapSet m e.1 e.2) []
+
+/-- `policyNeedsAliveState` -/
+def needsAliveState : Policy → Bool
+  | .fixed _ => false
+  | _ => true
+
+/-- What every `AliveDialerSet` of the group holds as latency offsets; `none` for `fixed` (no alive
+sets are built). -/
+def groupOffsetTable (g : Group) : Option (List (Nat × Int)) :=
+  if needsAliveState g.policy then some (offsetTable g.members) else none
+
+/-! ## Group names → outbound ids (control_plane.go, after the group loop)
+
+`outbounds` = `direct`, `block`, then the groups in configuration order; more than
+`OutboundUserDefinedMax` outbounds or a name seen twice is a configuration error; otherwise
+`outboundName2Id[name] = uint8(i)` is what routing rules resolve a group name with. -/
+
+def sDirect : Str := [100, 105, 114, 101, 99, 116]   -- "direct"
+def sBlock : Str := [98, 108, 111, 99, 107]          -- "block"
+
+/-- `consts.OutboundUserDefinedMax` = `OutboundMustRules - 1` = 0xFB -/
+def outboundUserDefinedMax : Nat := 251
+
+/-- a group of the configuration with its name -/
+structure NamedDef where
+  name : Str
+  d : GroupDef
+
+inductive CErr where
+  | group (e : GErr)
+  | tooMany (n : Nat)
+  | dupName (name : Str)
+deriving DecidableEq, Repr
+
+/-- `for i, o := range outbounds { if _, exist := m[o.Name]; exist { error }; m[o.Name] = uint8(i) }` -/
+def nameIds : List Str → Nat → List (Str × Nat) → Except CErr (List (Str × Nat))
+  | [], _, m => .ok m
+  | nm :: rest, i, m =>
+    if m.any (fun e => e.1 = nm) then .error (.dupName nm)
+    else nameIds rest (i + 1) (m ++ [(nm, i % 256)])
+
+/-- `outboundName2Id[name]` -/
+def idOf (m : List (Str × Nat)) (name : Str) : Option Nat := (m.find? (fun e => e.1 = name)).map (·.2)
+
+/-- The group loop followed by the outbound table: the groups (as `buildGroups`), then the count
+limit, then the name → id map. -/
+def buildConfig (O : Oracle) (pool : List Node) (nds : List NamedDef) :
+    Except CErr (List Group × List (Str × Nat)) :=
+  match buildGroups O pool (nds.map (·.d)) with
+  | .error e => .error (.group e)
+  | .ok gs =>
+    if 2 + gs.length > outboundUserDefinedMax then .error (.tooMany (2 + gs.length))
+    else
+      match nameIds (sDirect :: sBlock :: nds.map (·.name)) 0 [] with
+      | .error e => .error e
+      | .ok m => .ok (gs, m)
+
 end DaeVerif.C14
